@@ -171,7 +171,7 @@ def monitor (s : St) (clause detail : String) : IO St := do
   return { bump s key with monitorFails := s.monitorFails + 1 }
 
 def sample (s : St) (line : String) : IO St := do
-  if s.samples < 6 then
+  if s.samples < 4 then
     IO.println s!"SAMPLE [{s.stream} case {s.caseId} {s.kind}] {line.take 300}"
     return { s with samples := s.samples + 1 }
   return s
@@ -239,7 +239,10 @@ def stepStream (s : St) (ws : List String) (line : String) : IO St := do
   let alloc := (kvNat? res "alloc").getD 0
   let mut s := { s with ops := s.ops + 1, maxAlloc := max s.maxAlloc alloc }
   s := bump s (if tag == "err" then s!"st_err_{res.getD 1 "?"}" else s!"st_{tag}")
-  -- (X) model
+  -- (X) model.  The model looks known records up by type; `Stream.getRecord` scans forward,
+  -- which is the same thing when the known list is sorted (what `NewStream` enforces).
+  if !sortedStrict (known.map (·.1)) then
+    s ← mismatch s "known-record list of the harness is not strictly sorted"
   let model := decodeStream known p2p (toU8 inp)
   match model with
   | .ok rs =>
@@ -481,7 +484,7 @@ def stepMsg (s : St) (ws : List String) (line : String) (isFail : Bool) : IO St 
             s ← mismatch s s!"type={s.mtype}: re-encoding differs model={encHex.take 60}..{encHex.drop (encHex.length - 20)} impl={((kv? res "enc").getD "?").take 60}"
   return s
 
-def stepVal (s : St) (ws : List String) (line : String) : IO St := do
+def stepVal (s : St) (ws : List String) (_line : String) : IO St := do
   let res := resWords ws
   let tag := res.headD "?"
   let mut s := { s with ops := s.ops + 1 }
@@ -508,7 +511,6 @@ def stepVal (s : St) (ws : List String) (line : String) : IO St := do
         s ← monitor s "value-roundtrip" s!"dec(enc v) differs from v: enc={tag.take 80}"
     else
       s := bump s "val_rt1"
-  let _ := line
   return s
 
 def step (s : St) (line : String) : IO St := do
